@@ -22,24 +22,37 @@ func init() {
 // headerValidator: the in-package func(map[any]any, bool) error called by the
 // protected-bucket encoder.
 func (P *Prog) headerValidator() *ssa.Function {
-	enc := P.methodOf(P.mustNamed("ProtectedHeader"), "MarshalCBOR")
-	if enc == nil {
-		undecidedf("anchor not found: ProtectedHeader.MarshalCBOR")
+	counts := map[*ssa.Function]int{}
+	for _, tn := range []string{"ProtectedHeader", "UnprotectedHeader"} {
+		for _, mn := range []string{"MarshalCBOR", "UnmarshalCBOR"} {
+			fn := P.methodOf(P.mustNamed(tn), mn)
+			if fn == nil {
+				continue
+			}
+			for _, ci := range callsIn(fn, nil) {
+				c := staticCallee(ci)
+				if c == nil || !P.inPkg(c) || len(c.Params) != 2 || errIndex(c) != 0 || c.Signature.Results().Len() != 1 {
+					continue
+				}
+				if _, ok := c.Params[0].Type().Underlying().(*types.Map); !ok {
+					continue
+				}
+				if b, ok := c.Params[1].Type().Underlying().(*types.Basic); ok && b.Kind() == types.Bool {
+					counts[c]++
+				}
+			}
+		}
 	}
-	for _, ci := range callsIn(enc, nil) {
-		c := staticCallee(ci)
-		if c == nil || !P.inPkg(c) || len(c.Params) != 2 || errIndex(c) != 0 || c.Signature.Results().Len() != 1 {
-			continue
-		}
-		if _, ok := c.Params[0].Type().Underlying().(*types.Map); !ok {
-			continue
-		}
-		if b, ok := c.Params[1].Type().Underlying().(*types.Basic); ok && b.Kind() == types.Bool {
-			return c
+	var best *ssa.Function
+	for f, n := range counts {
+		if best == nil || n > counts[best] || (n == counts[best] && f.String() < best.String()) {
+			best = f
 		}
 	}
-	undecidedf("anchor not found: header validator (func(map[any]any, bool) error called by ProtectedHeader.MarshalCBOR)")
-	return nil
+	if best == nil {
+		undecidedf("anchor not found: header validator (func(map[any]any, bool) error called by the bucket (un)marshalers)")
+	}
+	return best
 }
 
 // labelScan: the in-package func([]byte) error that decodes into a map whose
